@@ -5,6 +5,7 @@ import (
 	"encoding/json"
 	"fmt"
 	"github.com/zmap/zcrypto/encoding/asn1"
+	"github.com/zmap/zcrypto/x509/pkix"
 	"os"
 	"reflect"
 	"strings"
@@ -147,6 +148,8 @@ func cmdMockLife(args []string) {
 	baseCert, baseCRL, baseOCSP := c.Certs[0].Cert, c.CRLs[0].CRL, c.OCSPs[0].OCSP
 	cfgOK, _ := lint.NewConfigFromString("[e_verif_life]\nvalue = 5\n")
 	cfgBad, _ := lint.NewConfigFromString("[e_verif_life]\nvalue = \"not an int\"\n")
+	cfgScalar, _ := lint.NewConfigFromString("e_verif_life = 5\n")
+	cfgArray, _ := lint.NewConfigFromString("[[e_verif_life]]\nvalue = 5\n")
 	cfgEmpty := lint.NewEmptyConfig()
 	zones := []*time.Location{time.UTC, time.FixedZone("p14", 14*3600), time.FixedZone("m12", -12*3600), time.FixedZone("p0530", 19800)}
 	ekuMap := map[int]x509.ExtKeyUsage{0: x509.ExtKeyUsageAny, 1: x509.ExtKeyUsageServerAuth, 2: x509.ExtKeyUsageClientAuth, 3: x509.ExtKeyUsageCodeSigning, 4: x509.ExtKeyUsageEmailProtection}
@@ -196,7 +199,7 @@ func cmdMockLife(args []string) {
 		cfg := cfgEmpty
 		if lc.Cfgable {
 			if lc.Cfg == "err" {
-				cfg = cfgBad
+				cfg = []lint.Configuration{cfgBad, cfgScalar, cfgArray}[i%3] // a value of the wrong type, a scalar and an array of tables where a table is expected
 			} else if lc.Cfg == "panic" {
 				cfg = lint.Configuration{} // the zero value: applying it to a configurable lint panics
 			} else if i%2 == 1 {
@@ -206,6 +209,7 @@ func cmdMockLife(args []string) {
 		t := instTime(lc.T, loc)
 		var r *lint.LintResult
 		esc := ""
+		depDiffers := ""
 		func() {
 			defer func() {
 				if p := recover(); p != nil {
@@ -234,7 +238,11 @@ func cmdMockLife(args []string) {
 					cp.PolicyIdentifiers = append(cp.PolicyIdentifiers, oidFromString(p))
 				}
 				cp.EmailAddresses, cp.OtherNames = nil, nil
-				if lc.Email {
+				if lc.Email && i%4 == 1 {
+					// the indication is a SmtpUTF8Mailbox otherName, listed after an otherName of another type
+					cp.OtherNames = []pkix.OtherName{{TypeID: asn1.ObjectIdentifier{1, 3, 6, 1, 4, 1, 311, 20, 2, 3}, Value: asn1.RawValue{Tag: 12, Bytes: []byte("upn@example.com")}},
+						{TypeID: asn1.ObjectIdentifier{1, 3, 6, 1, 5, 5, 7, 8, 9}, Value: asn1.RawValue{Tag: 12, Bytes: []byte("someone@example.com")}}}
+				} else if lc.Email {
 					cp.EmailAddresses = []string{"", "someone@example.com"}
 				} else if i%3 == 0 {
 					cp.EmailAddresses = []string{""} // an empty rfc822Name is not an indication
@@ -248,6 +256,28 @@ func cmdMockLife(args []string) {
 					return lmCert{mk}
 				}}
 				r = l.Execute(cp, cfg)
+				if i%5 == 0 && esc == "" {
+					// the deprecated lint.Lint value: used once under another window, then given this case's window and used again
+					other := md
+					other.EffectiveDate, other.IneffectiveDate = time.Date(2199, 1, 1, 0, 0, 0, 0, time.UTC), time.Time{}
+					saveLog, saveInst := append([]string{}, log...), inst
+					dl := &lint.Lint{Name: other.Name, Description: other.Description, Citation: other.Citation, Source: other.Source,
+						EffectiveDate: other.EffectiveDate, IneffectiveDate: other.IneffectiveDate, Lint: func() lint.LintInterface {
+							if lc.Cfgable {
+								return lmCertCfg{lmCert{mk}}
+							}
+							return lmCert{mk}
+						}}
+					func() {
+						defer func() { recover() }()
+						dl.Execute(cp, cfg)
+						dl.EffectiveDate, dl.IneffectiveDate = md.EffectiveDate, md.IneffectiveDate
+						if r2 := dl.Execute(cp, cfg); r != nil && r2 != nil && r2.Status != r.Status {
+							depDiffers = fmt.Sprintf("deprecated lint.Lint value re-used after its window was edited: %v instead of %v", r2.Status, r.Status)
+						}
+					}()
+					log, inst = saveLog, saveInst
+				}
 			case "crl":
 				cp := *baseCRL
 				cp.ThisUpdate = t
@@ -341,6 +371,12 @@ func cmdMockLife(args []string) {
 				if r.Details != details {
 					why = "details altered"
 				}
+			}
+		}
+		if why == "" && depDiffers != "" {
+			why = depDiffers
+			if lc.Why == "window" {
+				why = "window: " + depDiffers
 			}
 		}
 		if why != "" {
